@@ -95,7 +95,7 @@ fn check_c01_case(svc: &VarlinkService, reqs: &[Req], d: usize, rep: &mut Report
 }
 
 fn c01(args: &Args) -> ! {
-    let mut rep = Report::new("C01", "every request sequence over the 56-letter alphabet RQ (14 kinds x {none,more,oneway,oneway+more}) up to the length bound x every pipelining depth 1..n through VarlinkService::handle with the tail re-fed; non-trivial = sequence x depth whose requests are all delivered (one count per distinct (sequence, depth))");
+    let mut rep = Report::new("C01", "every request sequence over the 60-letter alphabet RQ (15 kinds x {none,more,oneway,oneway+more}) up to the length bound x every pipelining depth 1..n through VarlinkService::handle with the tail re-fed; non-trivial = sequence x depth whose requests are all delivered (one count per distinct (sequence, depth))");
     let (svc, _log) = new_ts();
     if let Some(case) = args.replay_case() {
         let reqs = reqs_from_json(&case["reqs"]);
@@ -124,7 +124,7 @@ fn c01(args: &Args) -> ! {
     }
     rep.count("sequences_len_le", maxlen as u64);
     if args.thorough() {
-        // length 4 over the 14 flag-less letters
+        // length 4 over the 15 flag-less letters
         let fa = flagless_alphabet();
         for s in sequences(fa.len(), 4) {
             if s.len() < 4 {
@@ -538,7 +538,7 @@ fn c03_service(cfg: &[usize]) -> (VarlinkService, Arc<Mutex<Vec<Seen>>>) {
         ifs.push(Box::new(Recording { name: POOL[*i].0, desc: POOL[*i].1, seen: seen.clone() }));
     }
     let log = Arc::new(Mutex::new(TsLog::default()));
-    ifs.push(Box::new(vts::org_verif_t::new(Box::new(Ts { log }))));
+    ifs.push(Box::new(vts::org_verif_t::new(Box::new(Ts { log, strict_upgrade: false }))));
     (VarlinkService::new("Vendor X", "Product Y", "9.9", "http://u.example/", ifs), seen)
 }
 
